@@ -4,7 +4,7 @@ from checks.bbi_family import *
 
 def main():
     run = Run("C01")
-    cfgs = ["MC_BigWig_t1.cfg", "MC_BigWig_t2.cfg"] if run.thorough else ["MC_BigWig_q1.cfg", "MC_BigWig_q2.cfg"]
+    cfgs = ["MC_BigWig_t1.cfg", "MC_BigWig_t2.cfg", "MC_BigWig_q3.cfg"] if run.thorough else ["MC_BigWig_q1.cfg", "MC_BigWig_q2.cfg", "MC_BigWig_q3.cfg"]
     beh = emit(run, "MC_BigWig", cfgs)
     sizes = lambda b: [b["L"]] * b["NC"]
     cases = make_cases(beh, "bw", sizes, run)
